@@ -120,6 +120,7 @@ static MagRef mag_set(const RefEval& R, const DenseSet& d, Q a) {
 static void sec_magnetic(Ctx& c, uint64_t idx) {
   vh::Rng& r = c.rng;
   int N = model_degree(c, false);
+  set_degree_factor(N);
   int NM = idx % 5 == 0 ? 1 : r.range(1, 4), NC = r.coin(0.4) ? 1 : 0;
   int normsel = (int)r.below(3) - 1;                 // -1 omitted (=> schmidt), 0 full, 1 schmidt
   ref::HarmNorm rn = normsel == 0 ? ref::HARM_FULL : ref::HARM_SCHMIDT;
@@ -210,14 +211,17 @@ static void sec_magnetic(Ctx& c, uint64_t idx) {
     if (near_knot) {   // the library may have used the other neighbouring interval: same value (continuity), other rounding
       int kk = (int)roundq(tt / dtq); MagRef P1 = mag_set(R, ds[kk - 1], mm.radius), P2 = mag_set(R, ds[kk], mm.radius), P3 = mag_set(R, ds[kk + 1], mm.radius);
       sB += 2 * (P1.scale + P2.scale) + (kk + 1 < NM ? P3.scale * 2 : 0); allow += P1.allow + P2.allow + P3.allow; }
+    // tau = (t - t0) - n dt carries the rounding eps |t - t0| (t itself is taken as exact): the field moves by that times the rate
+    sB += fabsq(tt) * sBt;
     bool under = A.under || Bn.under || Cn.under;
     Bv.x = A.B.x + tau * Bt.x + Cn.B.x; Bv.y = A.B.y + tau * Bt.y + Cn.B.y; Bv.z = A.B.z + tau * Bt.z + Cn.B.z;
+    if (c.only) std::fprintf(stderr, "t=%.17g n=%d interp=%d near_knot=%d tau=%s A.scale=%s Bn.scale=%s sB=%s allow=%s\n", t, n, (int)interp, (int)near_knot, qs(tau).c_str(), qs(A.scale).c_str(), qs(Bn.scale).c_str(), qs(sB).c_str(), qs(allow).c_str());
     Q Be, Bnn, Bu, Bte, Btn, Btu; ref::to_enu(Fm, Bv.x, Bv.y, Bv.z, Be, Bnn, Bu); ref::to_enu(Fm, Bt.x, Bt.y, Bt.z, Bte, Btn, Btu);
     std::string cls = cls0 + "/" + tcl;
     J wit = J(mw).f("t", t).f("lat", lat).f("lon", lon).f("h", h);
     c.count(cls, vh::hmix(vh::hmix(vh::hmix(vh::hmix(vh::hmix(21 + N, t), lat), lon), h), mm.radius));
     if (c.want_sample(cls)) c.sample(cls, wit);
-    if (!(sB < (Q)1e290)) { c.event("magnetic: REF out of double range"); continue; }
+    if (!(sB < (Q)1e290) || !(A.scale < (Q)1e290) || !(Bn.scale < (Q)1e290) || !(Cn.scale < (Q)1e290)) { c.event("magnetic: REF out of double range"); continue; }
     Q tolB = (Q)EPS * sB * K_M + allow + (Q)1e-300, tolBt = (Q)EPS * sBt * K_M + allow / fminq(dtq, 1) + (Q)1e-300;
     auto chk = [&](const char* what, const std::string& key, double gx, double gy, double gz, Q wx, Q wy, Q wz, Q tol) {
       double e = finite3(gx, gy, gz) ? dq(fmaxq(fmaxq(fabsq((Q)gx - wx), fabsq((Q)gy - wy)), fabsq((Q)gz - wz)) / tol) * K_M : INF;
